@@ -63,6 +63,8 @@ def check(run):
     fake = e2e.fake_ssh_dir(base)
     try:
         f6b_witness(run, binary, jbin, base, known)
+        from props.c12 import kept_link_scripted
+        kept_link_scripted(run, binary, jbin, quick, prop='C02')
         scen = []
         for i in range(170 if quick else 2500):
             sc = sync_e2e.gen_scenario(rng, 'mixed' if i % 3 else 'clean')
